@@ -268,6 +268,7 @@ def configs(tier):
                 out.append(dict(part=2, dw=dw, side=side, tree=t))
     # a few routing configurations with the decoder queried / elaborated between the add() calls
     out += [dict(c, use_between=True) for c in out if c["part"] == 1 and len(c["tree"]["subs"]) >= 2][::(9 if quick else 3)]
+    out += [dict(c, elab_twice=True) for c in out if len(c["tree"]["subs"]) >= 2 and not c.get("use_between")][::(13 if quick else 5)]
     return out
 
 
